@@ -89,6 +89,56 @@ Theorem C07_cleanup_keeps_newest w files ll total :
           same_at (wfs w) (wfs w') m).
 Proof. exact (cleanup_after_listing w files ll total). Qed.
 
+Require Import FL.Flw.Run FL.Flw.NumInv FL.Flw.NumRun FL.Flw.NumTheorems FL.Flw.NumCleanupNames FL.Flw.NumCleanupStep FL.Flw.NumCleanupRun FL.Flw.NumCleanup FL.Oracles.O_Flw.
+Local Open Scope nat_scope.
+(* END TO END, Numbers naming with KeepLogFiles / KeepCompressedFiles / KeepLogAndCompressedFiles, cleanup in the logging thread, EVERY history of
+   one run: in the end exactly rCURRENT, the newest n closed files (plain, as they were closed) and the next m (complete archives of exactly what the
+   file held) exist; everything older is gone; what survives, read by number and then rCURRENT, is a suffix of what was written
+   (side conditions: the suffix does not end in .gz, at most 100000 rotations - both shown necessary by counterexamples in Flw/NumCleanup.v) *)
+Theorem C07_numbers_cleanup c crit k n m t0 off ops closed cur :
+  numkcfg c crit k -> klim k = Some (n, m) -> Forall basic_op ops ->
+  sfx_ok (c_spec c) -> (N.of_nat (length closed) <= 100000)%N ->
+  a_run None ops (snd (run (fst (step (sys0 t0 off) (OStart c))) ops)) = Some (closed, cur) ->
+  let f := wfs (s_w (fst (run (sys0 t0 off) (OStart c :: ops ++ [OStop])))) in
+  let L := length closed in let lo := L - (n + m) in let mid := L - n in
+  (* what was written *)
+  concat closed ++ cur = written ops
+  (* exactly these names exist, each once *)
+  /\ (forall x, (exists j, lookup f x = Some j) <->
+        x = cname c \/ (exists i, mid <= i < L /\ x = rname c i) \/ (exists i, lo <= i < mid /\ x = gname c i))
+  /\ NoDup (dir_names f)
+  (* (a) the limits: at most n plain rotated files, at most m archives; the next cleanup would see them like this *)
+  /\ L - mid <= n /\ mid - lo <= m
+  /\ (forall off', list_log_gz off' (c_spec c) (fixed0 c) f IFNum = Some (listing c lo mid L))
+  (* the newest n closed files are there as they were closed *)
+  /\ (forall i, mid <= i < L -> lookup f (gname c i) = None /\
+        exists fl, file_of f (rname c i) = Some fl /\ fdata fl = nth i closed [] /\ fgz fl = 0%N /\ fdir fl = false)
+  (* (c) the next m are complete archives of what the file held when it was closed; the original is gone *)
+  /\ (forall i, lo <= i < mid -> lookup f (rname c i) = None /\
+        exists fl, file_of f (gname c i) = Some fl /\ fdata fl = nth i closed [] /\ fgz fl = 1%N /\ fdir fl = false)
+  (* older files are gone *)
+  /\ (forall i, i < lo -> lookup f (rname c i) = None /\ lookup f (gname c i) = None)
+  (* (b) the survivors, read by index, then rCURRENT: a suffix of what was written *)
+  /\ written ops = concat (firstn lo closed) ++ concat (map (fun i => data_at f (entry c mid i)) (seq lo (L - lo))) ++ cur
+  (* (d) the current file is plain and holds what it would hold without cleanup *)
+  /\ (exists fl, file_of f (cname c) = Some fl /\ fdata fl = cur /\ fgz fl = 0%N /\ fdir fl = false).
+Proof. exact (numbers_cleanup_properties c crit k n m t0 off ops closed cur). Qed.
+
+(* ... where `closed`, `cur` are what the same history leaves without cleanup *)
+Theorem C07_numbers_cleanup_vs_never c crit k t0 off ops :
+  numkcfg c crit k -> Forall basic_op ops ->
+  let a := a_run None ops (snd (run (fst (step (sys0 t0 off) (OStart c))) ops)) in
+  kside c k (nclosed a) ->
+  let f0 := wfs (s_w (fst (run (sys0 t0 off) (OStart (never_cfg c crit) :: ops ++ [OStop])))) in
+  match a with
+  | None => names f0 = []
+  | Some (closed, cur) => reader_view c f0 closed cur
+  end.
+Proof. exact (numbers_cleanup_vs_never c crit k t0 off ops). Qed.
+
+Check C07_numbers_cleanup. Check C07_numbers_cleanup_vs_never.
+Print Assumptions C07_numbers_cleanup.
+Print Assumptions C07_numbers_cleanup_vs_never.
 Check C07_compress_lossless. Check C07_cleanup_keeps_newest.
 Print Assumptions C07_compress_lossless.
 Print Assumptions C07_cleanup_keeps_newest.
